@@ -5,6 +5,7 @@
 import SplVerif.Model.Table
 import SplVerif.Spec.Typing
 import SplVerif.Spec.Grammar
+import SplVerif.Lemmas.TypingSound
 
 namespace Spl.C03
 
@@ -46,6 +47,28 @@ theorem tokenRange_bounds (toks : Array Token) (r out : Range)
         cases h
         exact ⟨b, by simpa using Array.mem_of_getElem? hb, rfl⟩
       · simp at h
+
+/-- **The static analysis attaches nothing to a valid program.**  For every tree the independent
+    typing specification accepts — any number and order of declarations, any nesting of array types,
+    statements and expressions — building the symbol table and the semantic analysis of the model
+    return the tree as it is: no build or semantic diagnostic anywhere (proof: `Lemmas/TypingSound`,
+    a simulation between the specification's environment and the implementation's tables). -/
+theorem welltyped_analysis_identity (p : Program) (h : Typing.wellTyped p = true) :
+    ∃ table, build p = .ok (p, table) ∧ analyze p table = .ok p :=
+  TypingSound.welltyped_identity p h
+
+/-- Hence the diagnostics of a document whose tree is well-typed are exactly the diagnostics the
+    parser attached to that tree; in particular there are none if the parser attached none. -/
+theorem welltyped_diagnostics (text : List Char) (toks : List Token) (prog : Program)
+    (hl : lex text = .ok toks) (hp : Parse.parse toks = .ok prog) (hw : Typing.wellTyped prog = true) :
+    ∃ d, AnalyzedSource.new text = .ok d ∧ d.ast = prog ∧ d.tokens = toks ∧
+      d.errors = convErrs toks.toArray prog.errors ∧
+      (prog.errors = [] → d.errors = .ok []) := by
+  obtain ⟨table, hb, ha⟩ := welltyped_analysis_identity prog hw
+  refine ⟨{ text := text, tokens := toks, ast := prog, table := table }, ?_, rfl, rfl, rfl, ?_⟩
+  · simp [AnalyzedSource.new, hl, hp, hb, ha]
+  · intro he
+    simp [AnalyzedSource.errors, he, convErrs]
 
 /-- The specification's verdict on a text: `some true` = syntactically valid and well-typed. -/
 def specVerdict (text : String) : Option Bool :=
